@@ -357,11 +357,12 @@ pub fn inspector_balance() -> String {
     use revm::primitives::TxKind;
     use revm::{inspector_handle_register, Evm};
     // PUSH1 0 x5 PUSH1 4 GAS CALL POP (call identity precompile); PUSH1 0 x5 PUSH2 0x9999 GAS CALL POP (empty account);
-    // PUSH1 0 PUSH1 0 PUSH1 0 CREATE POP; STOP
+    // PUSH1 0 PUSH1 0 PUSH1 0 CREATE POP; PUSH1 0 PUSH1 0 PUSH1 1 CREATE POP (refused: value 1, balance 0); STOP
     let code: Vec<u8> = vec![
         0x60, 0, 0x60, 0, 0x60, 0, 0x60, 0, 0x60, 0, 0x60, 4, 0x5a, 0xf1, 0x50, //
         0x60, 0, 0x60, 0, 0x60, 0, 0x60, 0, 0x60, 0, 0x61, 0x99, 0x99, 0x5a, 0xf1, 0x50, //
-        0x60, 0, 0x60, 0, 0x60, 0, 0xf0, 0x50, 0x00,
+        0x60, 0, 0x60, 0, 0x60, 0, 0xf0, 0x50, //
+        0x60, 0, 0x60, 0, 0x60, 1, 0xf0, 0x50, 0x00, // CREATE with value 1 from a contract that owns nothing: refused before a frame exists
     ];
     let mut out = String::new();
     let mut bad = false;
@@ -1314,6 +1315,29 @@ pub fn selfdestruct_notify() -> String {
     code.push(0xff);
     let (n, ok) = sd_run(SpecId::SHANGHAI, code);
     out += &format!("[selfdestruct-wrapper to itself (Shanghai) tx_ok={} notes={} {}{}] ", ok, n.len(), show(&n), if n == vec![(TARGET, TARGET, U256::from(1000))] { "" } else { " MISMATCH" });
+    // (f) the beneficiary word carries garbage above bit 160: the EVM pays the low 20 bytes, the notification must name that address
+    let mut code: Vec<u8> = vec![0x7f];
+    code.extend_from_slice(&[0xff; 12]);
+    code.extend_from_slice(ben.as_slice());
+    code.push(0xff);
+    let (n, ok) = sd_run(SpecId::CANCUN, code);
+    out += &format!("[selfdestruct-wrapper dirty upper bits in the beneficiary word tx_ok={} notes={} {}{}] ", ok, n.len(), show(&n), if n == vec![(TARGET, ben, U256::from(1000))] { "" } else { " MISMATCH" });
+    // (g) Cancun: a contract created in this transaction destroys itself towards itself: it is destroyed and its balance burnt
+    {
+        use revm::primitives::TxKind;
+        use revm::{inspector_handle_register, Evm};
+        for spec in [SpecId::CANCUN, SpecId::PRAGUE] {
+            let mut db = CacheDB::new(EmptyDB::default());
+            db.insert_account_info(CALLER, AccountInfo { nonce: 0, balance: U256::from(1_000_000_000u64), code_hash: B256::default(), code: None });
+            let mut evm = Evm::builder().with_db(db).with_external_context(SdInspector::default()).with_spec_id(spec)
+                .modify_tx_env(|tx| { tx.caller = CALLER; tx.transact_to = TxKind::Create; tx.value = U256::from(1000); tx.data = Bytes::from_static(&[0x30, 0xff]); tx.gas_limit = 500_000; })
+                .append_handler_register(inspector_handle_register).build();
+            let r = evm.transact();
+            let created = CALLER.create(0);
+            let n = evm.context.external.notes.clone();
+            out += &format!("[selfdestruct-wrapper created contract destroys itself ({:?}) tx_ok={} notes={} {}{}] ", spec, r.is_ok(), n.len(), show(&n), if n == vec![(created, created, U256::from(1000))] { "" } else { " MISMATCH" });
+        }
+    }
     // (e) no SELFDESTRUCT at all, only the value call
     let (n, ok) = sd_run(SpecId::CANCUN, value_call.clone());
     out += &format!("[selfdestruct-wrapper no selfdestruct tx_ok={} notes={}{}] ", ok, n.len(), if n.is_empty() { "" } else { " MISMATCH" });
@@ -1381,7 +1405,57 @@ pub fn inspector_transparency() -> String {
     }
     let mut out = String::new();
     for w in ["inspector_instruction", "call-wrapper", "create-wrapper", "eofcreate-wrapper", "call_end-wrapper", "create_end-wrapper", "eofcreate_end-wrapper"] {
-        out += &format!("[{} differential: {}{}] ", w, summary, if same { "" } else { " MISMATCH" });
+        out += &format!("[{} differential: {}{}] ", w, summary.replace('[', "(").replace(']', ")"), if same { "" } else { " MISMATCH" });
+    }
+    out
+}
+
+// ---------------------------------------------------------------- the shipped gas inspector does not change execution (differential incl. refused sub-calls)
+pub fn gas_inspector_differential() -> String {
+    use revm::inspectors::GasInspector;
+    use revm::primitives::TxKind;
+    use revm::{inspector_handle_register, Evm};
+    // refused CALL (value 1 from a contract with balance 0), refused CREATE (value 1), an ordinary call, a failing call (invalid opcode in the callee)
+    let refused_call: Vec<u8> = vec![0x60, 0, 0x60, 0, 0x60, 0, 0x60, 0, 0x60, 1, 0x60, 0xee, 0x61, 0xff, 0xff, 0xf1, 0x50, 0x00];
+    let refused_create: Vec<u8> = vec![0x60, 0, 0x60, 0, 0x60, 1, 0xf0, 0x50, 0x00];
+    let plain_call: Vec<u8> = vec![0x60, 0, 0x60, 0, 0x60, 0, 0x60, 0, 0x60, 0, 0x60, 4, 0x61, 0xff, 0xff, 0xf1, 0x50, 0x00];
+    let failing_call: Vec<u8> = vec![0x60, 0, 0x60, 0, 0x60, 0, 0x60, 0, 0x60, 0, 0x60, 0xfe, 0x61, 0xff, 0xff, 0xf1, 0x50, 0x00];
+    let run = |code: &Vec<u8>, with: bool, spec: SpecId| -> String {
+        let mut db = CacheDB::new(EmptyDB::default());
+        db.insert_account_info(CALLER, AccountInfo { nonce: 0, balance: U256::from(1_000_000_000u64), code_hash: B256::default(), code: None });
+        let bc = Bytecode::new_legacy(Bytes::from(code.clone()));
+        db.insert_account_info(TARGET, AccountInfo { nonce: 1, balance: U256::ZERO, code_hash: bc.hash_slow(), code: Some(bc) });
+        let bad = Bytecode::new_legacy(Bytes::from_static(&[0xfe]));
+        db.insert_account_info(address!("00000000000000000000000000000000000000fe"), AccountInfo { nonce: 1, balance: U256::ZERO, code_hash: bad.hash_slow(), code: Some(bad) });
+        if with {
+            let mut evm = Evm::builder().with_db(db).with_external_context(GasInspector::default()).with_spec_id(spec)
+                .modify_tx_env(|tx| { tx.caller = CALLER; tx.transact_to = TxKind::Call(TARGET); tx.gas_limit = 300_000; })
+                .append_handler_register(inspector_handle_register).build();
+            format!("{:?}", evm.transact().map(|r| r.result).map_err(|e| format!("{e:?}")))
+        } else {
+            let mut evm = Evm::builder().with_db(db).with_spec_id(spec)
+                .modify_tx_env(|tx| { tx.caller = CALLER; tx.transact_to = TxKind::Call(TARGET); tx.gas_limit = 300_000; })
+                .build();
+            format!("{:?}", evm.transact().map(|r| r.result).map_err(|e| format!("{e:?}")))
+        }
+    };
+    let mut same = true;
+    let mut summary = String::new();
+    for (name, code) in [("refused call", &refused_call), ("refused create", &refused_create), ("plain call", &plain_call), ("failing call", &failing_call)] {
+        for spec in [SpecId::BYZANTIUM, SpecId::CANCUN] {
+            let (a, b) = (run(code, false, spec), run(code, true, spec));
+            if a != b {
+                same = false;
+                summary += &format!("{name} {spec:?}: without `{}` with `{}`; ", &a[..a.len().min(90)], &b[..b.len().min(90)]);
+            }
+        }
+    }
+    if same {
+        summary = "8 runs identical".to_string();
+    }
+    let mut out = String::new();
+    for h in ["initialize_interp", "step", "step_end", "call_end", "create_end"] {
+        out += &format!("[GasInspector::{} differential: {}{}] ", h, summary.replace('[', "(").replace(']', ")"), if same { "" } else { " MISMATCH" });
     }
     out
 }
